@@ -152,6 +152,52 @@ impl Acc {
 
 const RULE: &str = "breadth-first over operation strings (6 byte classes, state-adaptive checksum bytes CLO/CHI, macro symbols ESC SOM TAIL0-4 TAILX, FINALIZE, RESET) from the roots new() and new()+start sequence; a state is the full decoder snapshot plus the monitor state, merged only on exact equality; every transition is one execution of the real decoder checked against the monitor; non-trivial = transitions on which a start sequence was detected, a frame delivered or rejected, an in-frame restart happened, plus distinct boundary states / directed noise cases";
 
+/// Multi-frame streams under the monitor (no merging): up to `nmax` frames with noise, rejected and
+/// aborted frames in between; also the concatenation corollary of C14 (decoding s1·s2 equals
+/// decoding s1, then s2 with a new decoder, whenever s1 ends at a boundary).
+fn many_frames(acc: &mut Acc, report: &[&'static str], nmax: usize) {
+    let items: Vec<(usize, usize)> = (1..=nmax).flat_map(|n| (0..3).map(move |v| (n, v))).collect();
+    let parts = par_chunks(items.len() as u64, 4, |a, b| {
+        let mut t = Tally::new();
+        let mut c = Counts::default();
+        for i in a..b {
+            let (n, variant) = items[i as usize];
+            let (stream, delivered) = crate::e2::many_frames_stream(n, variant);
+            for kind in [BufKind::Vec, BufKind::Arr(16)] {
+                let r = crate::mon::mon_run(kind, &stream, &[]);
+                c.inc("multi-frame streams run under the monitor");
+                let mk = |class: &str, what: String| Viol {
+                    class: class.to_string(),
+                    key: format!("{}:frames={},variant={}", kind.name(), n, variant),
+                    what,
+                    case: J::obj().set("engine", "e1").set("mode", "bytes").set("buf", kind.name()).set("bytes", hex(&stream)),
+                    size: stream.len(),
+                };
+                for (class, what) in &r.findings {
+                    if report.iter().any(|p| class.starts_with(p)) {
+                        t.add(mk(class, what.clone()));
+                    }
+                }
+                let got: Vec<&Vec<u8>> = r.events.iter().filter_map(|e| if let Ev::Msg(m) = e { Some(m) } else { None }).collect();
+                if got != delivered.iter().collect::<Vec<_>>() && report.iter().any(|p| *p == "C14" || *p == "C08") {
+                    t.add(mk(
+                        "C14 decoding a concatenation of transmissions differs from concatenating the decodings",
+                        format!("{} frames, variant {}: {} of {} payloads delivered in order", n, variant, got.len(), delivered.len()),
+                    ));
+                }
+            }
+        }
+        (t, c)
+    });
+    for (t, c) in parts {
+        acc.tally.merge(t);
+        acc.counts.merge(&c);
+    }
+    let n = acc.counts.get("multi-frame streams run under the monitor");
+    acc.transitions += n;
+    acc.states += n;
+}
+
 // ------------------------------------------------------------------ C02
 pub fn run_c02(tier: Tier) -> ! {
     let ctx = Ctx::new("C02", tier);
@@ -161,7 +207,7 @@ pub fn run_c02(tier: Tier) -> ! {
     acc.golden = gf;
     acc.absorb_golden(&["C02"]);
     let d = std::env::var("VERIF_DEPTH").ok().and_then(|s| s.parse().ok()).unwrap_or(tier.pick(6usize, 7));
-    for (kind, depth) in [(BufKind::Vec, d), (BufKind::Arr(3), d.saturating_sub(2)), (BufKind::Arr(0), d.saturating_sub(2))] {
+    for (kind, depth) in [(BufKind::Vec, d), (BufKind::Arr(3), d), (BufKind::Arr(0), d + 1), (BufKind::Arr(1), d)] {
         let cfg = base_cfg("C02", kind, depth, vec!["C02"], &ctx);
         let ex = explore(&cfg, &ctx);
         acc.add("soundness", &cfg, ex);
@@ -183,6 +229,8 @@ pub fn run_c02(tier: Tier) -> ! {
         let ex = explore(&cfg, &ctx);
         acc.add("soundness after aborted frames", &cfg, ex);
     }
+    many_frames(&mut acc, &["C02"], tier.pick(300, 1000));
+    wide_alphabet(&mut acc, "C02", vec!["C02"], tier.pick(4, 5), &ctx);
     acc.counts.require(&["frames delivered", "frames rejected", "in-frame restarts", "start sequences detected"]);
     let mut cov = acc.coverage(golden, RULE);
     if let Ok(path) = std::env::var("XCHECK_JSON") {
@@ -198,6 +246,20 @@ pub fn run_c02(tier: Tier) -> ! {
         }
     }
     finish_e1(&ctx, cov, assumptions(), acc.tally)
+}
+
+/// The same product exploration over a *wider* byte alphabet (14 byte values instead of 6), to a
+/// smaller depth: a defect keyed on a byte value outside the six classes (a comparison turned into
+/// a range, a new special value) has representatives here.
+fn wide_alphabet(acc: &mut Acc, prop: &str, report: Vec<&'static str>, depth: usize, ctx: &Ctx) {
+    let mut alpha = full_alphabet();
+    for b in [0x03u8, 0x04, 0x19, 0x1c, 0x7f, 0x80, 0x9b, 0xfe] {
+        alpha.push(Sym::B(b));
+    }
+    alpha.push(Sym::B(if plain_bytes()[5] == Sym::B(0x55) { 0xff } else { 0x55 }));
+    let cfg = Cfg { alphabet: alpha, ..base_cfg(prop, BufKind::Vec, depth, report, ctx) };
+    let ex = explore(&cfg, ctx);
+    acc.add("wide byte alphabet", &cfg, ex);
 }
 
 // ------------------------------------------------------------------ C05 / C17
@@ -217,11 +279,12 @@ pub fn run_c05_c17(prop: &'static str, tier: Tier) -> ! {
     if !wrap_phase {
         let dv = tier.pick(6, 7);
         let df = tier.pick(5, 7);
+        // tiny buffers have small state spaces: they are explored deeper
         for (kind, depth) in [
             (BufKind::Vec, dv),
-            (BufKind::Arr(0), df),
-            (BufKind::Arr(1), df),
-            (BufKind::Arr(2), df),
+            (BufKind::Arr(0), df + 3),
+            (BufKind::Arr(1), df + 2),
+            (BufKind::Arr(2), df + 1),
             (BufKind::Arr(3), df),
             (BufKind::Arr(4), df),
             (BufKind::Arr(5), df),
@@ -309,6 +372,8 @@ pub fn run_c05_c17(prop: &'static str, tier: Tier) -> ! {
         // driver loops under byte-source faults: see E3 (C11/C15) which also report panics
     }
     if !wrap_phase {
+        many_frames(&mut acc, &report, tier.pick(300, 1000));
+        wide_alphabet(&mut acc, prop, report.clone(), tier.pick(4, 5), &ctx);
         acc.counts.require(&["frames delivered", "frames rejected", "finalize calls", "reset calls", "transitions after a long run"]);
     }
     if wrap_phase {
@@ -530,6 +595,30 @@ fn c08_cut_case(p: &[u8], off: usize, m: &[u8], out: &mut Vec<Viol>, counts: &mu
     let f = canon(p);
     let mut stream = f[..off].to_vec();
     stream.extend_from_slice(&canon(m));
+    // the same stream with every small fixed capacity, judged by the monitor (the cut-off frame may
+    // overflow first): whatever happens before, the complete frame must be delivered if it fits
+    for n in 0..=6usize {
+        if m.len() > n {
+            continue;
+        }
+        let kind = BufKind::Arr(n);
+        let r = crate::mon::mon_run(kind, &stream, &[]);
+        counts.inc("cut-off runs");
+        let delivered = r.events.last() == Some(&Ev::Msg(m.to_vec())) && r.pos.last() == Some(&stream.len());
+        let mon_bad: Vec<String> = r.findings.iter().filter(|(c, _)| c.starts_with("C08") || c.starts_with("C01 M-complete")).map(|(c, w)| format!("{}: {}", c, w)).collect();
+        if !delivered || !mon_bad.is_empty() {
+            let mut v = c08_viol(
+                "C08 cut-off frame followed by a complete frame: the complete frame is not delivered (small fixed buffer)",
+                format!("{}: frame of {} cut after {} bytes, then frame of {}: events {} {}", kind.name(), hex(p), off, hex(m), evs_short(&r.events), mon_bad.join("; ")),
+                0,
+                &[],
+                m,
+                Some((p.to_vec(), off)),
+            );
+            v.key = format!("{} N={}", v.key, n);
+            out.push(v);
+        }
+    }
     let want = vec![Ev::Dec(DecodeErr::DiscardedBytes(off)), Ev::Msg(m.to_vec())];
     for t in run_frontends(BufKind::Vec, &stream, FeSet::Core).into_iter().chain(run_frontends(BufKind::Arr(8), &stream, FeSet::Core)) {
         counts.inc("cut-off runs");
@@ -566,7 +655,9 @@ pub fn run_c08(tier: Tier) -> ! {
     let golden = golden_monitor_binding(&ctx, &mut gf);
     let mut acc = Acc::new();
     acc.golden = gf;
-    let report = vec!["C08", "C01 M-complete"];
+    // a result reported while idle and before any start sequence means the decoder was not ready for
+    // the next frame: that is this property's business as well as C17's
+    let report = vec!["C08", "C01 M-complete", "C17 M-tile: output while idle"];
     acc.absorb_golden(&report);
     // (a) all noise, all idle histories, by state: idle-only exploration over the plain bytes
     let idle_roots: Vec<Vec<Sym>> = vec![
@@ -589,9 +680,11 @@ pub fn run_c08(tier: Tier) -> ! {
         let ex = explore(&cfg, &ctx);
         acc.add("idle-phase exploration: every noise string over the byte classes", &cfg, ex);
     }
-    // general exploration (in-frame restarts, frames after errors) reporting the C08 classes
-    {
-        let cfg = base_cfg("C08", BufKind::Vec, tier.pick(6, 7), report.clone(), &ctx);
+    // general exploration (in-frame restarts, frames after errors) reporting the C08 classes; tiny
+    // fixed buffers as well: OutOfMemory histories, restarts and end sequences that have to flush
+    // withheld zeros into a full buffer
+    for (kind, depth) in [(BufKind::Vec, tier.pick(6, 7)), (BufKind::Arr(0), tier.pick(8, 9)), (BufKind::Arr(1), tier.pick(7, 8)), (BufKind::Arr(2), tier.pick(6, 7)), (BufKind::Arr(3), tier.pick(5, 6))] {
+        let cfg = base_cfg("C08", kind, depth, report.clone(), &ctx);
         let ex = explore(&cfg, &ctx);
         acc.add("all operations", &cfg, ex);
     }
@@ -660,6 +753,7 @@ pub fn run_c08(tier: Tier) -> ! {
         acc.tally.merge(t);
         acc.counts.merge(&c);
     }
+    many_frames(&mut acc, &report, tier.pick(300, 1000));
     let directed = acc.counts.get("directed runs") + acc.counts.get("cut-off runs");
     acc.transitions += directed;
     acc.states += acc.counts.get("directed cases with noise or cut");
@@ -802,8 +896,8 @@ pub fn run_c14(tier: Tier) -> ! {
     let mut open_at_bound = 0u64;
     for (kind, depth) in [
         (BufKind::Vec, dv),
-        (BufKind::Arr(0), df),
-        (BufKind::Arr(1), df),
+        (BufKind::Arr(0), df + 2),
+        (BufKind::Arr(1), df + 1),
         (BufKind::Arr(2), df),
         (BufKind::Arr(3), df),
         (BufKind::Arr(4), df),
@@ -846,6 +940,7 @@ pub fn run_c14(tier: Tier) -> ! {
             open_at_bound += st.2;
         }
     }
+    many_frames(&mut acc, &["C14"], tier.pick(300, 1000));
     acc.transitions += total_pairs * 2;
     acc.counts.addn("lock-step continuation steps (boundary state vs new decoder)", total_pairs);
     acc.counts.addn("continuations closed by full state equality (all futures identical)", closed);
